@@ -157,8 +157,11 @@ fn call(st: &mut State, entry: &str, input: &[u8], cmd: &Value) -> &'static str 
         "sklb" => some_or_fail(physis::skeleton::Skeleton::from_existing(input)),
         "pbd" => match physis::pbd::PreBoneDeformer::from_existing(input) {
             Some(p) => {
-                for (a, b) in [(101u16, 201u16), (201, 101), (101, 9999), (0, 101), (101, 301), (301, 101)] {
-                    let _ = p.get_deform_matrices(a, b);
+                let ids = [101u16, 201, 301, 401, 9999, 0];
+                for a in ids {
+                    for b in ids {
+                        let _ = p.get_deform_matrices(a, b);
+                    }
                 }
                 "value"
             }
